@@ -223,7 +223,8 @@ Record J (s : sst) : Prop := mkJ {
   J_sglt : forall w, In w (sgws s) -> g_id w < snext s;
   J_ltlt : forall w, In w (drun s ++ dlaters s) -> l_id w < snext s;
   J_io : forall w, In w (iows s) ->
-         exists sl, nth_error (slots s) (i_slot w) = Some sl /\ p_fd sl = i_fd w /\ p_watch sl = i_id w /\ 0 <= i_fd w }.
+         exists sl, nth_error (slots s) (i_slot w) = Some sl /\ p_fd sl = i_fd w /\ p_watch sl = i_id w /\ 0 <= i_fd w;
+  J_nn : 0 <= snext s }.
 
 (* what tickit_watch_cancel does, field by field *)
 Definition same_but_log (s s' : sst) : Prop :=
@@ -359,13 +360,14 @@ Qed.
 Lemma J_same : forall s s', J s -> iows s' = iows s -> slots s' = slots s -> sgws s' = sgws s ->
   drun s' = drun s -> dlaters s' = dlaters s -> snext s <= snext s' -> J s'.
 Proof.
-  intros s s' HJ Hi Hs Hg Hr Hd Hn. destruct HJ as [a b c d e f]. apply mkJ.
+  intros s s' HJ Hi Hs Hg Hr Hd Hn. destruct HJ as [a b c d e f g]. apply mkJ.
   - eapply TW_same; eassumption.
   - rewrite Hg. exact b.
   - rewrite Hr, Hd. exact c.
   - rewrite Hg. intros w Hw. specialize (d w Hw). lia.
   - rewrite Hr, Hd. intros w Hw. specialize (e w Hw). lia.
   - rewrite Hi, Hs. exact f.
+  - lia.
 Qed.
 
 Lemma xabs_same : forall s s', iows s' = iows s -> slots s' = slots s -> sgws s' = sgws s ->
@@ -399,7 +401,7 @@ Proof.
           assert (w' = w) by (eapply nodup_same_id; [exact (tw_nodup s (J_tw s HJ))|exact Hin'|exact Hin|congruence]).
           subst w'. symmetry. exact Hsl'. }
       rewrite E1, E2. destruct (i_unbind w); reflexivity.
-    + apply mkJ; [exact HTW|rewrite Hg; apply (J_sgnd s HJ)|rewrite Hr, Hd; apply (J_ltnd s HJ)| | |].
+    + apply mkJ; [exact HTW|rewrite Hg; apply (J_sgnd s HJ)|rewrite Hr, Hd; apply (J_ltnd s HJ)| | | |rewrite K6; apply (J_nn s HJ)].
       * rewrite Hg, K6. apply (J_sglt s HJ).
       * rewrite Hr, Hd, K6. apply (J_ltlt s HJ).
       * rewrite Hi, Hs. intros w' Hw'.
@@ -412,7 +414,7 @@ Proof.
     split.
     + unfold xabs, x_cancel. cbn [x_ios x_sgs x_kpend]. rewrite find_xio_map, Eio. cbn [option_map]. rewrite Esg, Ek.
       rewrite Hi, Hs, Hg, Hd, Hr, K1, K4, K5, K6, K7, K8, Hl. destruct (g_unbind w); reflexivity.
-    + apply mkJ; [exact HTW| |rewrite Hr, Hd; apply (J_ltnd s HJ)| | |].
+    + apply mkJ; [exact HTW| |rewrite Hr, Hd; apply (J_ltnd s HJ)| | | |rewrite K6; apply (J_nn s HJ)].
       * rewrite Hg. eapply subl_nodup; [apply subl_remove_sgw|apply (J_sgnd s HJ)].
       * rewrite Hg, K6. intros v Hv. apply (J_sglt s HJ). eapply in_remove_sgw_elem. exact Hv.
       * rewrite Hr, Hd, K6. apply (J_ltlt s HJ).
@@ -425,7 +427,7 @@ Proof.
       rewrite Hi, Hs, Hg, Hd, Hr, K1, K4, K5, K6, K7, K8, Hl. destruct (l_unbind w); reflexivity.
     + assert (Hsub : subl (map l_id (drun s ++ remove_ltr id (dlaters s))) (map l_id (drun s ++ dlaters s))).
       { rewrite !map_app. apply subl_app; [apply subl_refl|apply subl_remove_ltr]. }
-      apply mkJ; [exact HTW|rewrite Hg; apply (J_sgnd s HJ)| | | |].
+      apply mkJ; [exact HTW|rewrite Hg; apply (J_sgnd s HJ)| | | | |rewrite K6; apply (J_nn s HJ)].
       * rewrite Hr, Hd. eapply subl_nodup; [exact Hsub|apply (J_ltnd s HJ)].
       * rewrite Hg, K6. apply (J_sglt s HJ).
       * rewrite Hr, Hd, K6. intros v Hv. apply (J_ltlt s HJ). apply in_app_or in Hv. apply in_or_app.
@@ -438,7 +440,7 @@ Proof.
       rewrite Hi, Hs, Hg, Hd, Hr, K1, K4, K5, K6, K7, K8, Hl. destruct (l_unbind w); reflexivity.
     + assert (Hsub : subl (map l_id (remove_ltr id (drun s) ++ dlaters s)) (map l_id (drun s ++ dlaters s))).
       { rewrite !map_app. apply subl_app; [apply subl_remove_ltr|apply subl_refl]. }
-      apply mkJ; [exact HTW|rewrite Hg; apply (J_sgnd s HJ)| | | |].
+      apply mkJ; [exact HTW|rewrite Hg; apply (J_sgnd s HJ)| | | | |rewrite K6; apply (J_nn s HJ)].
       * rewrite Hr, Hd. eapply subl_nodup; [exact Hsub|apply (J_ltnd s HJ)].
       * rewrite Hg, K6. apply (J_sglt s HJ).
       * rewrite Hr, Hd, K6. intros v Hv. apply (J_ltlt s HJ). apply in_app_or in Hv. apply in_or_app.
@@ -471,6 +473,7 @@ Proof.
         -- pose proof (J_ltlt s HJ w Hw). lia.
         -- subst w. cbn. lia.
       * apply (J_io s HJ).
+      * pose proof (J_nn s HJ). lia.
   - (* IO watch *)
     cbn in Hok.
     pose proof (TW_io s fd cond ub cb (J_tw s HJ) Hok) as HTW.
@@ -498,6 +501,7 @@ Proof.
            ++ destruct (J_io s HJ w Hw) as [sl [Hn R]]. exists sl. split; [|exact R].
               rewrite nth_error_set_nth, (Hother w Hw). exact Hn.
            ++ subst w. cbn. eexists. split; [apply set_nth_nth_error; lia|]. cbn. repeat split; lia.
+        -- pose proof (J_nn s HJ). lia.
     + split.
       * unfold xabs. cbn. rewrite map_app. cbn [map].
         f_equal; [f_equal|].
@@ -516,6 +520,7 @@ Proof.
               rewrite nth_error_app1; [exact Hn|]. apply nth_error_Some. rewrite Hn. discriminate.
            ++ subst w. cbn. eexists. split; [rewrite nth_error_app2 by lia; rewrite Nat.sub_diag; reflexivity|].
               cbn. repeat split; lia.
+        -- pose proof (J_nn s HJ). lia.
   - (* signal watch *)
     split; [reflexivity|]. apply mkJ; cbn.
     + apply (TW_action env s (SSig sig ub cb) (J_tw s HJ) I).
@@ -527,6 +532,7 @@ Proof.
       * subst w. cbn. lia.
     + intros w Hw. pose proof (J_ltlt s HJ w Hw). lia.
     + apply (J_io s HJ).
+    + pose proof (J_nn s HJ). lia.
   - apply sim_cancel. exact HJ.
   - split; [reflexivity|]. eapply J_same; [exact HJ|reflexivity..|cbn; lia].
   - cbn [sdo_action x_action]. change (x_watched (xabs s) sig) with (is_watched s sig).
@@ -643,13 +649,14 @@ Proof.
       set (s1 := semit (up_drun s dr) (l_id w) KLater (EV_FIRE + EV_UNBIND) 0).
       inversion Hnd as [|? ? Hir Hndr]; subst.
       assert (HJ1 : J s1).
-      { destruct HJ as [a b c d e f]. apply mkJ; cbn.
+      { destruct HJ as [a b c d e f g]. apply mkJ; cbn.
         - eapply TW_same; [exact a|reflexivity..|cbn; lia].
         - exact b.
         - rewrite Ed in c. cbn [app map] in c. inversion c; assumption.
         - exact d.
         - intros v Hv. apply e. rewrite Ed. right. exact Hv.
-        - exact f. }
+        - exact f.
+        - exact g. }
       assert (HQ1 : Q s1) by (eapply HQf; [| | |exact HQ]; reflexivity).
       assert (Hok : Forall act_ok (env (l_cb w))) by apply Henv.
       destruct (sim_actions (env (l_cb w)) s1 HJ1 Hok) as [E2 HJ2].
@@ -684,7 +691,7 @@ Proof.
   set (s1 := up_dlaters (up_drun s (drun s ++ dlaters s)) []).
   assert (Ex : xabs s1 = xabs s) by (unfold xabs; cbn; rewrite app_nil_r; reflexivity).
   assert (HJ1 : J s1).
-  { destruct HJ as [a b c d e f]. apply mkJ; cbn; try assumption.
+  { destruct HJ as [a b c d e f g]. apply mkJ; cbn; try assumption.
     - eapply TW_same; [exact a|reflexivity..|cbn; lia].
     - rewrite app_nil_r. exact c.
     - rewrite app_nil_r. exact e. }
@@ -1076,19 +1083,22 @@ Proof.
       destruct (g_sig w =? sig) eqn:Em.
       * (* it watches the signal: invoked *)
         pose proof Em as Emb. apply Z.eqb_eq in Em.
-        set (s1e := semit s1 (g_id w) KSig EV_FIRE sig).
-        assert (HJ1e : J s1e) by (eapply J_same; [exact HJ1|reflexivity..|cbn; lia]).
-        assert (HW1e : WI r s1e (cursor s1e)) by (eapply WI_mono; [| | |exact HW1]; try reflexivity; cbn; lia).
-        assert (Hok : Forall act_ok (env (g_cb w))) by apply Henv.
-        destruct (sim_actions (env (g_cb w)) s1e HJ1e Hok) as [E2 HJ2].
-        pose proof (WI_actions (env (g_cb w)) r s1e HJ1e Hok HW1e) as HW2.
-        set (s2 := sdo_actions fixed_cfg s1e (env (g_cb w))) in *.
+        set (s1e := sig_fire s1 w sig).
+        assert (HJ1e : J s1e) by (unfold s1e, sig_fire; destruct (g_id w <? 0); [exact HJ1|eapply J_same; [exact HJ1|reflexivity..|cbn; lia]]).
+        assert (HW1e : WI r s1e (cursor s1e)).
+        { unfold s1e, sig_fire. destruct (g_id w <? 0); [exact HW1|]. eapply WI_mono; [| | |exact HW1]; try reflexivity; cbn; lia. }
+        assert (Hok : Forall act_ok (cb_acts env w)) by (unfold cb_acts; destruct (g_id w <? 0); [repeat constructor|apply Henv]).
+        assert (Ex1e : xabs s1e = x_sig_fire (xabs s) w sig) by (unfold s1e, sig_fire, x_sig_fire; destruct (g_id w <? 0); reflexivity).
+        destruct (sim_actions (cb_acts env w) s1e HJ1e Hok) as [E2 HJ2].
+        pose proof (WI_actions (cb_acts env w) r s1e HJ1e Hok HW1e) as HW2.
+        set (s2 := sdo_actions fixed_cfg s1e (cb_acts env w)) in *.
         destruct (IH s2 (cursor s2) HJ2 HW2 Hndr) as [s' [[R2 [R3 R4]] [f0 Hf0]]].
         exists s'. split; [split; [|split; [exact R3|]]|].
-        -- rewrite R2, E2. cbn [x_run_sig].
+        -- rewrite R2, E2, Ex1e. cbn [x_run_sig].
            assert (Hx : find_sgw (g_id w) (x_sgs (xabs s)) = Some w) by exact Hfw.
            rewrite Hx. reflexivity.
-        -- eapply subl_trans; [exact R4|]. exact (acts_drun (env (g_cb w)) s1e HJ1e Hok).
+        -- eapply subl_trans; [exact R4|]. eapply subl_trans; [exact (acts_drun (cb_acts env w) s1e HJ1e Hok)|].
+           unfold s1e, sig_fire. destruct (g_id w <? 0); apply subl_refl.
         -- exists (S f0). intros fuel Hf. destruct fuel as [|f]; [lia|].
            cbn [app hd_id sig_walk]. rewrite Hfw, Haf, Emb, Hbw. apply Hf0. lia.
       * (* it watches another signal: passed over *)
@@ -1306,7 +1316,7 @@ Lemma polled_state : forall s R, J s ->
 Proof.
   intros s R HJ s2.
   assert (HJ2 : J s2).
-  { destruct HJ as [a b c d e f]. apply mkJ; cbn; try assumption.
+  { destruct HJ as [a b c d e f g]. apply mkJ; cbn; try assumption.
     - destruct a as [a1 a2 a3]. apply mkTW; cbn; try assumption.
       intros idx sl Hn Hfd. rewrite nth_error_map in Hn. destruct (nth_error (slots s) idx) as [p|] eqn:Ep; [|discriminate].
       cbn in Hn. inversion Hn; subst sl. rewrite poll_fd in Hfd. rewrite poll_watch, poll_fd. exact (a3 idx p Ep Hfd).
@@ -1445,6 +1455,7 @@ Proof.
   - intros w [].
   - intros w [].
   - intros w [].
+  - lia.
 Qed.
 
 Lemma sim_ops : forall ops s, Bd s -> Forall op_ok ops ->
@@ -1476,10 +1487,29 @@ Proof.
       destruct (IH _ HB2 Hr) as [s' [[X Y] [f0 Hf0]]]. exists s'. split; [split; [|exact Y]|].
       * rewrite X. reflexivity.
       * exists f0. intros fuel Hf. cbn [sdo_op]. apply Hf0. exact Hf.
-    + destruct (sim_run_passes rk (up_running s true) (Bd_running s true (conj HJ (conj Hdr Hpe)))) as [s1 [[E HB1] [f1 Hf1]]].
-      destruct (IH s1 HB1 Hr) as [s' [[X Y] [f2 Hf2]]]. exists s'. split; [split; [|exact Y]|].
-      * rewrite X. cbn [x_op]. rewrite E. reflexivity.
-      * exists (Nat.max f1 f2). intros fuel Hf. cbn [sdo_op]. rewrite (Hf1 fuel ltac:(lia)). apply Hf2. lia.
+    + (* tickit_run: the SIGINT watch, the passes, its cancellation *)
+      set (sa := up_sgws (up_running s true) (remove_sgw INT_ID (sgws s) ++ [int_watch])).
+      assert (HBa : Bd sa).
+      { split; [|split; assumption]. destruct HJ as [a b c d e f g]. apply mkJ; cbn; try assumption.
+        - eapply TW_same; [exact a|reflexivity..|cbn; lia].
+        - rewrite map_app. cbn [map g_id int_watch]. apply NoDup_app_intro_single.
+          + eapply subl_nodup; [apply subl_remove_sgw|exact b].
+          + apply remove_sgw_notin. exact b.
+        - intros w Hw. apply in_app_or in Hw. destruct Hw as [Hw|[Hw|[]]].
+          + apply d. eapply in_remove_sgw_elem. exact Hw.
+          + subst w. cbn. unfold INT_ID. lia. }
+      assert (Exa : xabs sa = x_set_sgs (x_set_run (xabs s) true) (remove_sgw INT_ID (x_sgs (xabs s)) ++ [int_watch])) by reflexivity.
+      destruct (sim_run_passes rk sa HBa) as [s1 [[E HB1] [f1 Hf1]]].
+      set (sb := up_sgws s1 (remove_sgw INT_ID (sgws s1))).
+      assert (HBb : Bd sb).
+      { destruct HB1 as [HJ1 [A1 B1]]. split; [|split; assumption]. destruct HJ1 as [a b c d e f g]. apply mkJ; cbn; try assumption.
+        - eapply TW_same; [exact a|reflexivity..|cbn; lia].
+        - eapply subl_nodup; [apply subl_remove_sgw|exact b].
+        - intros w Hw. apply d. eapply in_remove_sgw_elem. exact Hw. }
+      assert (Exb : xabs sb = x_set_sgs (xabs s1) (remove_sgw INT_ID (x_sgs (xabs s1)))) by reflexivity.
+      destruct (IH sb HBb Hr) as [s' [[X Y] [f2 Hf2]]]. exists s'. split; [split; [|exact Y]|].
+      * rewrite X. cbn [x_op]. rewrite Exb, E, Exa. reflexivity.
+      * exists (Nat.max f1 f2). intros fuel Hf. cbn [sdo_op]. fold sa. rewrite (Hf1 fuel ltac:(lia)). apply Hf2. lia.
 Qed.
 
 (* destruction *)
